@@ -18,6 +18,15 @@ pub(crate) fn read_type(src: &mut &[u8]) -> io::Result<Option<Type>> {
     let mut len = usize::from(encoding >> 4);
 
     if len == MAX_TYPE_LEN {
+        // The length that follows is a typed scalar integer, i.e., its own descriptor cannot be
+        // in the "length follows" form.
+        if src.first().is_some_and(|b| !matches!(b, 0x11..=0x13)) {
+            return Err(io::Error::new(
+                io::ErrorKind::InvalidData,
+                "invalid length value",
+            ));
+        }
+
         let value = read_value(src)?;
 
         len = match value.and_then(|v| v.as_int()) {
